@@ -326,6 +326,8 @@ type orderedUpdate struct {
 	handed *[]model.Model
 }
 
+var c05NilToggle int
+
 func (o orderedUpdate) GetUpdatedTables() []string { return []string{"T"} }
 func (o orderedUpdate) ForEachModelUpdate(table string, do func(uuid string, old, new model.Model) error) error {
 	for _, op := range o.ops {
@@ -334,7 +336,12 @@ func (o orderedUpdate) ForEachModelUpdate(table string, do func(uuid string, old
 			old = o.db.NewModel("T", op.UUID, r)
 		}
 		if op.Op != "delete" {
+			// (every other model comes with nil instead of empty collections, as decoded rows do when a column
+			// is absent: the same row as far as the cache and its indexes go)
+			c05NilToggle++
+			nativeNilEmpty = c05NilToggle%2 == 1
 			new = o.db.NewModel("T", op.UUID, op.Row)
+			nativeNilEmpty = false
 		}
 		if o.handed != nil {
 			if old != nil {
